@@ -38,7 +38,7 @@ type MemoryCache[MetadataT any] struct {
 	entries      map[CacheKey]*memoryInternalEntry[MetadataT]
 	mu           sync.RWMutex
 	locks        []sync.RWMutex
-	memoryCap    int64
+	memoryCap    atomics.Int64 // Written by the memory budget subscriber while stores read it
 	maxCacheSize atomics.Int64
 	byteSize     atomics.Int64
 
@@ -55,7 +55,7 @@ func NewMemoryCache[MetadataT any](cfg *config.Config, memoryBudgetPercent int, 
 	c := &MemoryCache[MetadataT]{
 		entries:      make(map[CacheKey]*memoryInternalEntry[MetadataT]),
 		locks:        make([]sync.RWMutex, shardCount),
-		memoryCap:    int64(sysMem.Total) * int64(memoryBudgetPercent) / 100,
+		memoryCap:    atomics.NewInt64(int64(sysMem.Total) * int64(memoryBudgetPercent) / 100),
 		maxCacheSize: atomics.NewInt64(maxCacheSize),
 		byteSize:     atomics.NewInt64(0),
 	}
@@ -65,10 +65,9 @@ func NewMemoryCache[MetadataT any](cfg *config.Config, memoryBudgetPercent int, 
 	}))
 
 	c.subs.Add(cfg.Cache.Memory.MemoryBudgetPercent.OnChange(func(newPercent int) {
-		c.mu.Lock()
-		defer c.mu.Unlock()
-		c.memoryCap = int64(sysMem.Total) * int64(newPercent) / 100
-		slog.Info("Memory budget changed", "new_percent", newPercent, "new_cap", bytesize.ByteSize(c.memoryCap))
+		newCap := int64(sysMem.Total) * int64(newPercent) / 100
+		c.memoryCap.Set(newCap)
+		slog.Info("Memory budget changed", "new_percent", newPercent, "new_cap", bytesize.ByteSize(newCap))
 	}))
 
 	c.janitor = newCacheJanitor(cfg, cleanupInterval, cacheFunctions[MetadataT]{
@@ -148,7 +147,7 @@ func (c *MemoryCache[MetadataT]) Get(key CacheKey) (*Entry[MetadataT], error) {
 
 func (c *MemoryCache[MetadataT]) cacheInternal(key CacheKey, data io.Reader, expires time.Time, metadata MetadataT, evictIfFull bool) (*Entry[MetadataT], error) {
 	maxCacheSize := c.maxCacheSize.Get()
-	limit := min(maxCacheSize, c.memoryCap)
+	limit := min(maxCacheSize, c.memoryCap.Get())
 
 	if c.byteSize.Get() >= limit {
 		if evictIfFull {
